@@ -45,17 +45,24 @@ def find_src_line(repo, module, name):
     if module.startswith('__dep_'):
         # a function of a dependency (rule D5): report the registry source of the version Cargo.lock pins
         import glob
-        pkg = module.split('::')[0][6:].replace('_', '-')
+        pkg = module.split('::')[0][6:]
         try:
             lock = open(os.path.join(repo, 'Cargo.lock')).read()
         except OSError:
             lock = ''
         m = re.search(r'name = "' + re.escape(pkg) + r'"\nversion = "([^"]+)"', lock)
+        if not m:
+            pkg = pkg.replace('_', '-')
+            m = re.search(r'name = "' + re.escape(pkg) + r'"\nversion = "([^"]+)"', lock)
         ver = m.group(1) if m else '?'
         for c in glob.glob(os.path.expanduser(f'~/.cargo/registry/src/*/{pkg}-{ver}/src/' + '/'.join(module.split('::')[1:]) + '.rs')):
             for k, ln in enumerate(open(c), 1):
                 if re.search(r'\bfn\s+' + re.escape(name) + r'\b', ln):
                     return f'dependency {pkg} {ver}: src/{os.path.basename(c)}:{k}'
+        for c in glob.glob(os.path.expanduser(f'~/.cargo/registry/src/*/{pkg}-{ver}/src/*.rs')):
+            for k, ln in enumerate(open(c), 1):
+                if re.search(r'\bfn\s+' + re.escape(name) + r'\b', ln):
+                    return f'dependency {pkg} {ver}: src/{os.path.basename(c)}:{k}' + (' (macro body, instance `' + module.split('::')[-1] + '`)' if len(module.split('::')) > 1 else '')
         return f'dependency {pkg} {ver}'
     if module:
         base = os.path.join(repo, 'src', *module.split('::'))
@@ -235,7 +242,8 @@ def process_template(path, crate, repo, gen=None, depth=0):
             gen.add('#[verifier::external_body]', f'{rel}:{i+1}', tags)
             gen.add('\n'.join(sig), f'contract of {a[0]}::{a[1]} (proved in unit {a[0]})', tags)
             gen.add('{ unimplemented!() }', f'{rel}:{i+1}', tags)
-            gen.stubs.append({'unit': a[0], 'fn': a[1], 'as': new_name})
+            m_em = re.search(r'\bfn (\w+)', '\n'.join(sig))
+            gen.stubs.append({'unit': a[0], 'fn': a[1], 'as': new_name, 'emitted': m_em.group(1) if m_em else new_name})
         elif kw == 'unit-rewrite':
             # //@unit-rewrite <rule> /re/ -> repl : applied to every function extracted in this unit after this line
             m = re.match(r'(\w+)\s+/(.*)/\s*->\s*(.*)$', arg)
